@@ -46,10 +46,12 @@ def run(ctx):
     # checker's query (C03 R3) are part of the verdict
     from . import C15 as C15_, C03 as C03_
     from .C19 import _Only as _O
-    ctx.rule("R7", "deferral is decided exactly: the effects scan is exact (C15 R2/R3) and the query names exactly the Post* flags (C03 R3)")
+    ctx.rule("R7", "deferral is decided exactly: the effects scan is exact (C15 R2/R3), the query names exactly the Post* flags (C03 R3) and the deferred set is closed under descendants (C03 R5)")
+    C15_.run(_O(ctx, "R1", "R7"))
     C15_.run(_O(ctx, "R2", "R7"))
     C15_.run(_O(ctx, "R3", "R7"))
     C03_.r3(_O(ctx, "R3", "R7"), prog)
+    C03_.r5(_O(ctx, "R5", "R7"), prog)
     # a malformed edge list is an error only because node_edges answers None for it (C18 R3, re-evaluated under R1)
     from . import C18
     C18.node_edges_rules(ctx, prog, "R1")
